@@ -24,11 +24,20 @@ import math, random, itertools
 from fractions import Fraction as F
 
 PROP = 'C19'
-LEAN_MODULES = ['XyzProofs.Props.C19']
+LEAN_MODULES = ['XyzProofs.Props.C19', 'XyzProofs.Refine.Num', 'XyzProofs.Props.C19Src']
 THEOREMS = ['Stats.c19_mean', 'Stats.c19_M2', 'Stats.c19_var', 'Stats.c19_cov', 'Stats.c19_covar', 'Stats.c19_cov_matrix',
-            'Stats.c19_chunking', 'Stats.c19_permutation', 'Stats.c19_stop']
+            'Stats.c19_chunking', 'Stats.c19_permutation', 'Stats.c19_stop',
+            # the hand-written models are the method bodies translated from the source (harness/anchors_numfn.py) ...
+            'Stats.rsInit_refines', 'Stats.rsUpdate_refines', 'Stats.rsUpdateFromIt_refines', 'Stats.rsVar_refines',
+            'Stats.rsVar_fresh', 'Stats.rsStd_sq', 'Stats.rsErr_sq', 'Stats.rsConverged_refines',
+            'Stats.rcInit_refines', 'Stats.rcUpdate_refines', 'Stats.rcUpdateFromIt_refines', 'Stats.rcCovar_refines',
+            'Stats.forCount_loop', 'Stats.estimateFromRepeats_refines',
+            # ... and the property statements on the translated source
+            'Stats.c19_src_var', 'Stats.c19_src_covar', 'Stats.c19_src_stop', 'Stats.c19_src_sample_count']
 ANCHORS = ['welfordCount', 'welfordMean', 'welfordM2', 'statVar', 'convRhs', 'covCount', 'covXmean', 'covYmean', 'covC',
-           'covCovar', 'covSample', 'repCheck', 'repRtol', 'repAtol', 'repHitMax']
+           'covCovar', 'covSample', 'repCheck', 'repRtol', 'repAtol', 'repHitMax',
+           'rsInit', 'rsUpdate', 'rsUpdateFromIt', 'rsVar', 'rsStd', 'rsErr', 'rsRelErr', 'rsConverged',
+           'rcInit', 'rcUpdate', 'rcUpdateFromIt', 'rcCovar', 'rcSampleCovar', 'estimateFromRepeats']
 PARTIAL = {}
 RULE = ("three kinds of cases. stats: a sequence of 1..500 finite floats (offset 0..±1e9, spread 1e-3..1e6; gaussian, uniform, "
         "two-point, outliers, ramp, sorted, step, spike, constant), shuffled by a seeded permutation and fed to a fresh "
